@@ -177,6 +177,68 @@ func runC18(o *out, thorough bool, r *rng, _ []string) map[string]interface{} {
 		stun.VerifPutSHA1(h2)
 		o.count("pool-hygiene")
 	}
+	// the key buffer belongs to the caller: overwritten in place between two uses of the same pooled object
+	for i := 0; i < 200; i++ {
+		kb := r.hmacKey()
+		if len(kb) == 0 {
+			kb = []byte{1}
+		}
+		for round := 0; round < 3; round++ {
+			for k := range kb {
+				kb[k] = byte(r.intn(256)) // same slice, same length, new key
+			}
+			msg := r.bytes(r.intn(200))
+			h := stun.VerifAcquireSHA1(kb)
+			h.Write(msg)
+			ref := hmac.New(sha1.New, kb)
+			ref.Write(msg)
+			if !bytes.Equal(h.Sum(nil), ref.Sum(nil)) {
+				o.fail("key-buffer-reuse-keeps-old-key", fmt.Sprintf("x round=%d keylen=%d", round, len(kb)))
+			}
+			stun.VerifPutSHA1(h)
+			// and through MESSAGE-INTEGRITY
+			m := stun.New()
+			_ = m.Build(stun.BindingRequest, stun.TransactionID, stun.MessageIntegrity(kb))
+			if _, ok := rfcIntegrityVerdict(m.Raw, kb); !ok {
+				o.fail("key-buffer-reuse-keeps-old-key", fmt.Sprintf("x MESSAGE-INTEGRITY round=%d keylen=%d", round, len(kb)))
+			}
+		}
+		o.count("key-buffer-reuse")
+	}
+	// MESSAGE-INTEGRITY computed concurrently through the public API, distinct keys, against crypto/hmac
+	{
+		var wg sync.WaitGroup
+		var mu sync.Mutex
+		bad := 0
+		for w := 0; w < 16; w++ {
+			wg.Add(1)
+			go func(seed uint64) {
+				defer wg.Done()
+				rr := newRng(seed)
+				for i := 0; i < 150; i++ {
+					key := rr.bytes(1 + rr.intn(80))
+					m := stun.New()
+					_ = m.Build(stun.BindingRequest, stun.TransactionID, stun.NewSoftware(string(rr.bytes(rr.intn(40)))), stun.MessageIntegrity(key))
+					_, ok := rfcIntegrityVerdict(m.Raw, key)
+					d := new(stun.Message)
+					cerr := stun.Decode(m.Raw, d)
+					if cerr == nil {
+						cerr = stun.MessageIntegrity(key).Check(d)
+					}
+					if !ok || cerr != nil {
+						mu.Lock()
+						bad++
+						mu.Unlock()
+					}
+				}
+			}(r.u64())
+		}
+		wg.Wait()
+		if bad > 0 {
+			o.fail("hmac-concurrent-mismatch", fmt.Sprintf("%d concurrent MESSAGE-INTEGRITY computations differ from crypto/hmac", bad))
+		}
+		o.countN("concurrent-message-integrity", 16*150)
+	}
 	// concurrent use of the pool: 16 goroutines, thousands of histories compared with crypto/hmac
 	// (run under the race detector in the thorough tier)
 	workers, per := 16, 300
